@@ -15,6 +15,7 @@ From Coq Require Import ZArith Bool List.
 From Ice Require Import Model.AgentTypes Model.AgentCore Gen.Consts Gen.Lifecycle
      Proofs.AgentFrame Proofs.AgentC02 Proofs.AgentC03 Proofs.AgentC03Sel Proofs.AgentC20 Proofs.AgentC06 Proofs.AgentRem
      Proofs.AgentEnds Proofs.AgentSelProv.
+From Ice Require Import Proofs.AgentEnds Proofs.AgentSingleNom.
 Import ListNotations.
 Local Open Scope Z_scope.
 
@@ -147,3 +148,55 @@ Example C03_example_provenance :
   request_authentic s1 req = true /\ response_authentic s2 resp = true /\
   map q_use (s_pending s2) = [false].
 Proof. vm_compute. repeat split. Qed.
+
+(* ---- single nomination (the nomination mechanism of C01 / C03) ------------------------------------------------------
+   One operation, from EVERY state: unless it (re)starts the selector (Start, Restart, a request carrying the receiver's
+   own role), is an application renomination, or adds a remote candidate that supersedes a peer-reflexive one, the
+   recorded nominated pair (identifier, local socket, remote address) stays what it was once it is set, and every
+   USE-CANDIDATE request the operation sends goes from that pair's socket to that pair's remote address. *)
+Theorem C03_single_nomination_step : forall cfg s o,
+  single_rel (renominates_or_restarts s o) s (snd (step cfg s o)) (fst (step cfg s o)).
+Proof. exact step_single_nomination. Qed.
+Print Assumptions C03_single_nomination_step.
+
+(* any stretch of any history free of those operations: all the USE-CANDIDATE requests the agent sends go from ONE
+   socket to ONE address -- the controlling side nominates a single pair and repeats that nomination *)
+Theorem C03_use_candidate_requests_share_one_pair : forall cfg ops s lh1 dst1 m1 lh2 dst2 m2,
+  quiet cfg s ops ->
+  In (OSend lh1 dst1 m1) (trace cfg s ops) -> m_class m1 = 0 -> m_use m1 = true ->
+  In (OSend lh2 dst2 m2) (trace cfg s ops) -> m_class m2 = 0 -> m_use m2 = true ->
+  lh1 = lh2 /\ dst1 = dst2.
+Proof. exact use_candidate_requests_share_one_pair. Qed.
+Print Assumptions C03_use_candidate_requests_share_one_pair.
+
+Theorem C03_nominated_pair_recorded_once : forall cfg ops s, quiet cfg s ops ->
+  nom_keep s (runs cfg s ops) /\ Forall (use_ok (runs cfg s ops)) (trace cfg s ops).
+Proof. exact history_single_nomination. Qed.
+Print Assumptions C03_nominated_pair_recorded_once.
+
+Module C03_example_single_nomination.
+  Definition cfg := mkConfig false 5 7 5000000000 false 25000000000 0 0 0 0 0 [] true false 1.
+  Definition l := mkCand 1 1 1 (mkAddr false 167772161 5000) 0 2130706431 1 None.
+  Definition hi := mkAddr false 3232235777 6000.
+  Definition lo := mkAddr false 3232235778 6001.
+  Definition rhi := mkCand 2 1 1 hi 0 2130706431 1 None.
+  Definition rlo := mkCand 3 1 1 lo 0 2130706175 1 None.
+  Definition resp tx src := InStun 1 src (mkMsg 2 1 tx None (Some 4) false None None None None None).
+  Definition s := fst (run cfg 1 1 [AddLocal l; Start true 3 4]).
+  Definition ops := [AddRemote rhi; AddRemote rlo; Tick; resp 1 hi; resp 2 lo; Tick; Advance 200000000; Tick; resp 4 hi; Tick].
+  Definition uses := filter (fun o => match o with OSend _ _ m => (m_class m =? 0) && m_use m | _ => false end) (trace cfg s ops).
+  Example hypotheses_hold : quiet cfg s ops.
+  Proof.
+    unfold ops, resp, rhi, rlo. cbn [quiet renominates_or_restarts]. repeat split;
+      match goal with
+      | |- ~ False => intros []
+      | |- ~ ~ _ => intros H; apply H; vm_compute; reflexivity
+      | |- _ => intros [tb H]; vm_compute in H; discriminate H
+      end.
+  Qed.
+  (* two USE-CANDIDATE requests (transactions 3 and 4), both from socket 1 to the high-priority remote; then selected *)
+  Example two_nominations_one_pair :
+    (map (fun o => match o with OSend lh dst m => (lh, dst, m_tx m) | _ => (0, hi, 0) end) uses, s_selected (runs cfg s ops))
+    = ([(1, hi, 3); (1, hi, 4)], Some 1).
+  Proof. vm_compute. reflexivity. Qed.
+End C03_example_single_nomination.
